@@ -217,6 +217,10 @@ func run(e *ev.Env) {
 	corpus("language-three-subtags", kLanguage, mo("en", "zh-Hant"), true, mr("zh-Hant-TW", ""), mr("en", "0.5"))
 	corpus("language-three-subtags-primary", kLanguage, mo("fr", "sr", "sr-Latn"), true, mr("sr-Latn-RS", "0.9"), mr("fr", "0.5"))
 	corpus("token-prefix-language", kLanguage, mo("en", "fr"), true, mr("eng", ""), mr("fr", "0.1"))
+	// an offer given as extension may carry parameters; a slash inside a quoted value is not a MIME type
+	corpus("extension-offer-with-slash-in-quoted-parameter", kMedia, mo(`json;profile="https://example.com/schemas/user"`, "text/html"), true,
+		mr("application/json", ""), mr("text/html", "0.5"))
+	corpus("extension-offer-with-parameters-wildcard", kMedia, mo(`html;a="x/y";b="k=v"`, "png"), true, mr("text/*", "0.8"), mr("image/png", ""))
 	corpus("absent-header", kMedia, mo("application/json", "text/html"), false, mr("text/html", ""))
 	// equal quality, specificity and parameter count: position decides; three-way for the sort
 	corpus("tie-position", kMedia, mo("image/png", "text/css", "text/html"), true,
@@ -319,7 +323,8 @@ func (s *sess) poolSeq(r *gen.Rand, n int) {
 // format judges Format against the Accepts it is documented to use, observed in the same request.
 func (s *sess) format(r *gen.Rand) {
 	h := genHeader(r, kMedia, r.Bool())
-	offers := genOffers(r, kMedia, h, false, false)
+	// media types as MIME types, sometimes also as extensions (with or without parameters)
+	offers := genOffers(r, kMedia, h, r.Chance(1, 3), false)
 	fm := offerTexts(offers)
 	def := -1
 	if r.Chance(35, 100) {
@@ -368,7 +373,7 @@ func (s *sess) formatJudge(header string, present bool, fm []string, def int) {
 	case !present || header == "":
 		if !one || p.invoked[0] != 0 {
 			bad("absent-header|first-handler-not-called", "absent Accept must call the first handler")
-		} else if fm[0] != "default" && ct != fm[0] {
+		} else if fm[0] != "default" && isMIME(fm[0]) && ct != fm[0] {
 			bad("absent-header|content-type", "Content-Type is not the first handler's media type")
 		}
 	case p.accRes == "":
@@ -383,7 +388,7 @@ func (s *sess) formatJudge(header string, present bool, fm []string, def int) {
 	default:
 		if !one || fm[p.invoked[0]] != p.accRes {
 			bad("selected|wrong-handler", "Format called a handler other than the one Accepts names")
-		} else if ct != p.accRes {
+		} else if isMIME(p.accRes) && ct != p.accRes {
 			bad("selected|content-type", "Content-Type differs from the selected media type")
 		} else if resp.Status != 200 {
 			bad("selected|status", "status is not 200")
@@ -489,6 +494,15 @@ func (s *sess) totality(r *gen.Rand) {
 		}
 	}
 	e.Stat("totality_headers", 1)
+}
+
+// isMIME: the media type is written as type/subtype (not as a file extension). Only then does
+// the documentation say what Content-Type Format sets.
+func isMIME(mt string) bool {
+	if i := strings.IndexByte(mt, ';'); i >= 0 {
+		mt = mt[:i]
+	}
+	return strings.Contains(mt, "/")
 }
 
 func hexs(s string) string {
